@@ -447,6 +447,10 @@ func parseGSIBlock(b []byte) (g *gsiBlock, err error) {
 	// Framerate
 	if v, ok := stlFramerateMapping.Get(string(b[3:11])); ok {
 		g.framerate = v.(int)
+	} else {
+		// Timecodes can't be converted without a framerate
+		err = fmt.Errorf("astisub: unknown disk format code %q", string(b[3:11]))
+		return
 	}
 
 	// Creation date
